@@ -8,9 +8,13 @@ import (
 	"bytes"
 	"crypto/sha256"
 	"os"
+	"testing/fstest"
 	"time"
 
+	"github.com/foxboron/go-uefi/efi"
 	"github.com/foxboron/go-uefi/efi/attributes"
+	"github.com/foxboron/go-uefi/efi/efitest"
+	efifs "github.com/foxboron/go-uefi/efi/fs"
 	"github.com/foxboron/go-uefi/efi/signature"
 	"github.com/foxboron/go-uefi/efivar"
 	"github.com/foxboron/go-uefi/efivarfs"
@@ -65,7 +69,35 @@ func runFlow(sc M) {
 	base := time.Now().UTC().Unix() - 10
 	var made []flowUpdate
 	lastT := map[string]int64{}
-	emit(M{"sc": id, "op": "reset"})
+	// stories about platform modes: the harness plays the firmware, which keeps the SetupMode / SecureBoot variables (one byte
+	// behind the attribute prefix, BS+RT) in step with the platform key and the enforcement switch
+	modes := sc["modes"] == true
+	efifs.SetFS(mem) // the legacy package-level API looks at the same file system
+	putBool := func(name string, on bool) {
+		p := attributes.Efivars + "/" + name + "-" + globalGUIDText
+		mem.Remove(p)
+		f, _ := mem.OpenFile(p, os.O_CREATE|os.O_WRONLY, 0644)
+		b := byte(0)
+		if on {
+			b = 1
+		}
+		f.Write([]byte{0x06, 0, 0, 0, b})
+		f.Close()
+	}
+	fromHelper := func(files map[string]*fstest.MapFile) {
+		for p, mf := range files {
+			mem.Remove(p)
+			f, _ := mem.OpenFile(p, os.O_CREATE|os.O_WRONLY, 0644)
+			f.Write(mf.Data)
+			f.Close()
+		}
+	}
+	pkCount := 0
+	if modes {
+		putBool("SetupMode", true)
+		putBool("SecureBoot", false)
+	}
+	emit(M{"sc": id, "op": "reset", "modes": modes})
 	read := func(v string) (*signature.SignatureDatabase, error) {
 		switch v {
 		case "db":
@@ -156,16 +188,66 @@ func runFlow(sc M) {
 				ev["payload"] = flowEntries(payload)
 				signer, _ := ev["signer"].(string)
 				auth := (target == "PK" || target == "KEK") && signer == "pkkey" || (target == "db" || target == "dbx") && signer == "kekkey"
+				if modes && pkCount == 0 {
+					// setup mode: no authorised signer is needed, but a platform key must be signed with its own key
+					auth = target != "PK" || signer == "pkkey"
+				}
 				if ev["binds"] == true && auth && t > lastT[target] {
 					ev["accepted"] = true
 					lastT[target] = t
 					p := attributes.Efivars + "/" + tv.Name + "-" + guidText(guidWire(*tv.GUID))
 					mem.Remove(p)
-					f, _ := mem.OpenFile(p, os.O_CREATE|os.O_WRONLY, 0644)
-					f.Write(append(le32(uint32(tv.Attributes)), payload...))
-					f.Close()
+					if len(payload) > 0 || !modes {
+						f, _ := mem.OpenFile(p, os.O_CREATE|os.O_WRONLY, 0644)
+						f.Write(append(le32(uint32(tv.Attributes)), payload...))
+						f.Close()
+					} // (an empty payload deletes the variable)
+					if modes && target == "PK" {
+						pkCount = len(flowEntries(payload))
+						putBool("SetupMode", pkCount == 0)
+						if pkCount == 0 {
+							putBool("SecureBoot", false)
+						}
+					}
 				}
 			}
+			emit(ev)
+		case "togglesb":
+			on := st["on"] == true
+			acc := !(on && pkCount == 0)
+			if acc {
+				// through the library's own fixtures for these two states
+				if on {
+					fromHelper(efitest.SecureBootOn())
+				} else {
+					fromHelper(efitest.SecureBootOff())
+				}
+			}
+			emit(M{"sc": id, "op": "togglesb", "on": on, "accepted": acc})
+		case "modes":
+			ev := M{"sc": id, "op": "modes", "setup_obj": "error", "sb_obj": "error", "setup_legacy": false, "sb_legacy": false, "pk_entries": 0, "check_modes": check["modes"]}
+			guard(func() error {
+				b2s := func(b bool, err error) string {
+					if err != nil {
+						return "error"
+					}
+					if b {
+						return "true"
+					}
+					return "false"
+				}
+				ev["setup_obj"] = b2s(e.GetSetupMode())
+				ev["sb_obj"] = b2s(e.GetSecureBoot())
+				ev["setup_legacy"] = efi.GetSetupMode()
+				ev["sb_legacy"] = efi.GetSecureBoot()
+				if db, err := e.GetPK(); err == nil {
+					ev["pk_entries"] = len(flowEntries(db.Bytes()))
+					if ldb, lerr := efi.GetPK(); lerr != nil || !bytes.Equal(ldb.Bytes(), db.Bytes()) {
+						ev["pk_entries"] = -1 // the two APIs disagree about the platform key
+					}
+				}
+				return nil
+			})
 			emit(ev)
 		case "read":
 			v := str(st, "v")
